@@ -1,4 +1,5 @@
-"""C13 - DRAM-backed FIFO: control part (level / pointers / gating), bypass routing. The mode switching is not decided."""
+"""C13 - DRAM-backed FIFO: control part (level / pointers / gating), mode-switch bookkeeping, bypass routing.
+Signals, states and sub-blocks are found by the role they play (what they connect / what drives them), not by their names."""
 from ..ruleutil import *
 
 FF = "litedram.frontend.fifo"
@@ -6,23 +7,48 @@ NATIVE = {"isinstance:port:LiteDRAMNativePort": True, "isinstance:port:LiteDRAMA
           "isinstance:write_port:LiteDRAMNativePort": True, "isinstance:read_port:LiteDRAMNativePort": True}
 
 
-def run(ctx):
-    ob1 = ctx.ob("C13.1", "control: writable = level < depth, readable = level > 0, level' = level + write - read, both pointers advance by one and wrap "
-                          "at depth, addresses are base + pointer; a word is counted as written exactly when the DMA writer accepts it (which needs writable) "
-                          "and as read exactly when the DMA reader accepts the address (which needs readable)", 8)
-    ob3 = ctx.ob("C13.3", "bypass: the pre-FIFO feeds the post-FIFO directly only under with_bypass & dram_bypass, and dram_bypass is asserted only in the "
-                          "bypass state; otherwise data goes pre-FIFO -> pre-converter -> DRAM FIFO -> post-converter -> post-FIFO", 3)
+def cond_keys(v, l):
+    """Conditions under which a 1-bit comb target is 1: guards of `If(c, x.eq(1))` or guards & conjuncts of `x.eq(c)`."""
+    lits = list(v.guard_lits(l, False))
+    if not is1(l.value):
+        lits += conj(l.value)
+    return nkeys(v, lits)
+
+
+def comb_def(v, k):
+    """value of the single unguarded *combinational* driver of k (a registered flag is one cycle late and does not count)"""
+    ds = v.drivers(k)
+    if len(ds) == 1 and not ds[0].guards and ds[0].domain == "comb" and ds[0].kind == "assign":
+        return ds[0].value
+    return None
+
+
+def ctrl_rules(ctx, ob1):
     for depth in (12, 16):
         c = elab(ctx, FF, "_LiteDRAMFIFOCtrl", kwargs={"base": Sym("base"), "depth": Const(depth)})
         tag = "depth=%d" % depth
-        w = c.single_comb_def(Sym("writable")) or _sd(c, "writable")
-        r = _sd(c, "readable")
-        ob1.instance("%s gating" % tag, {"writable": key(w) if w is not None else None, "readable": key(r) if r is not None else None})
-        if w is None or not (isinstance(w, Op) and w.op == "<" and key(w.args[0]) == "level" and key(w.args[1]) == str(depth)):
-            ob1.refute("writable:%d" % depth, "writable is %s, expected level < depth (with <= the FIFO accepts depth+1 words and overwrites unread data)" %
-                       (key(w) if w is not None else None), None)
-        if r is None or not (isinstance(r, Op) and ((r.op == ">" and key(r.args[0]) == "level" and key(r.args[1]) == "0") or (r.op == "!=" and "level" in key(r)))) and key(r) != "level":
-            ob1.refute("readable:%d" % depth, "readable is %s, expected level > 0" % (key(r) if r is not None else None), None)
+        w = comb_def(c, "writable")
+        r = comb_def(c, "readable")
+        ob1.instance("%s gating" % tag, {"writable": key(w) if w is not None else [str(d) for d in c.drivers("writable")],
+                                         "readable": key(r) if r is not None else [str(d) for d in c.drivers("readable")]})
+        okw = False
+        if isinstance(w, Op) and len(w.args) == 2:
+            a, b = key(w.args[0]), key(w.args[1])
+            okw = (w.op == "<" and (a, b) == ("level", str(depth))) or (w.op == ">" and (a, b) == (str(depth), "level")) or \
+                  (w.op == "!=" and {a, b} == {"level", str(depth)}) or (w.op == "<=" and (a, b) == ("level", str(depth - 1)))
+        if not okw:
+            ob1.refute("writable:%d" % depth, "writable is %s, expected the combinational test level < depth (with <=, or with a registered flag that is one "
+                       "cycle late, the FIFO accepts depth+1 words and overwrites unread data)" %
+                       (key(w) if w is not None else [str(d) for d in c.drivers("writable")]), (c.drivers("writable") or [None])[0] and c.drivers("writable")[0].loc)
+        okr = False
+        if r is not None:
+            a, p = literal(r)
+            okr = (p and key(a) == "level") or (isinstance(r, Op) and r.op == ">" and key(r.args[0]) == "level" and key(r.args[1]) == "0") or \
+                  (isinstance(r, Op) and r.op == "<" and key(r.args[1]) == "level" and key(r.args[0]) == "0") or \
+                  (isinstance(r, Op) and r.op == ">=" and key(r.args[0]) == "level" and key(r.args[1]) == "1")
+        if not okr:
+            ob1.refute("readable:%d" % depth, "readable is %s, expected the combinational test level > 0" %
+                       (key(r) if r is not None else [str(d) for d in c.drivers("readable")]), None)
         lv = [l for l in c.drivers("level")]
         okl = len(lv) == 1 and not lv[0].guards and lin_eq(lv[0].value, Op("-", (Op("+", (Sym("level"), Sym("write"))), Sym("read"))))
         ob1.instance("%s level update" % tag, [str(l) for l in lv])
@@ -44,63 +70,221 @@ def run(ctx):
                            ds[0].loc if ds else None)
     wv = elab(ctx, FF, "_LiteDRAMFIFOWriter", kwargs={"data_width": Sym("data_width"), "port": pobj("port"), "ctrl": pobj("ctrl"), "fifo_depth": Sym("fd")}, hasattrs=NATIVE)
     rv = elab(ctx, FF, "_LiteDRAMFIFOReader", kwargs={"data_width": Sym("data_width"), "port": pobj("port"), "ctrl": pobj("ctrl"), "fifo_depth": Sym("fd")}, hasattrs=NATIVE)
-    sv = _sd(wv, "writer.sink.valid")
+    wdma = [str(o) for o in wv.d.objs if o.cls == "LiteDRAMDMAWriter" and "." not in str(o)]
+    rdma = [str(o) for o in rv.d.objs if o.cls == "LiteDRAMDMAReader" and "." not in str(o)]
+    if not ob1.need(len(wdma) == 1 and len(rdma) == 1, "DMA writer / reader of the FIFO front ends not found"):
+        return
+    W, R = wdma[0], rdma[0]
+    sv = _sd(wv, W + ".sink.valid")
     ob1.instance("writer gating", {"writer.sink.valid": key(sv) if sv is not None else None})
-    if sv is None or litset(conj(sv)) != {"sink.valid", "ctrl.writable"}:
+    if sv is None or nkeys(wv, conj(sv)) != {"sink.valid", "ctrl.writable"}:
         ob1.refute("writer-valid", "the DMA writer is offered a word under %s, expected sink.valid & ctrl.writable" % (key(sv) if sv is not None else None), None)
-    for v_, tgt, what in ((wv, "ctrl.write", "writer.sink"), (wv, "sink.ready", "writer.sink"), (rv, "ctrl.read", "reader.sink")):
-        ds = [l for l in v_.leaves if l.kind == "assign" and key(l.target) == tgt and l.inst == ""]
-        okk = len(ds) == 1 and is1(ds[0].value) and v_.guard_keys(ds[0], False) == {what + ".valid", what + ".ready"}
+    for v_, tgt, what in ((wv, "ctrl.write", W + ".sink"), (wv, "sink.ready", W + ".sink"), (rv, "ctrl.read", R + ".sink")):
+        ds = [l for l in v_.leaves if l.kind == "assign" and key(l.target) == tgt and l.inst == "" and not is0(l.value)]
+        want = {what + ".valid", what + ".ready"}
+        # the front end's own valid may be written out (sink.valid & ctrl.writable) instead of reading back <dma>.sink.valid
+        vdef = _sd(v_, what + ".valid")
+        alt = (nkeys(v_, conj(vdef)) | {what + ".ready"}) if vdef is not None else want
+        okk = len(ds) == 1 and cond_keys(v_, ds[0]) in (want, alt)
         ob1.instance(tgt, [str(d) for d in ds])
         if not okk:
             ob1.refute("strobe:%s" % tgt, "%s is asserted by %s, expected exactly under fire(%s): the level would count words the DMA did not accept (or miss "
                        "accepted ones)" % (tgt, [str(d) for d in ds], what), ds[0].loc if ds else None)
-    rsv = _sd(rv, "reader.sink.valid")
+    rsv = _sd(rv, R + ".sink.valid")
     if rsv is None or key(rsv) != "ctrl.readable":
         ob1.refute("reader-valid", "the DMA reader is offered an address under %s, expected ctrl.readable" % (key(rsv) if rsv is not None else None), None)
-    for v_, tgt, ptr in ((wv, "writer.sink.address", "ctrl.write_address"), (rv, "reader.sink.address", "ctrl.read_address")):
+    for v_, tgt, ptr in ((wv, W + ".sink.address", "ctrl.write_address"), (rv, R + ".sink.address", "ctrl.read_address")):
         a = _sd(v_, tgt)
         ob1.instance(tgt, key(a) if a is not None else None)
         if a is None or not lin_eq(a, Op("+", (Sym("ctrl.base"), Sym(ptr)))):
             ob1.refute("address:%s" % tgt, "%s is %s, expected ctrl.base + %s" % (tgt, key(a) if a is not None else None, ptr), None)
-    d = _sd(wv, "writer.sink.data")
+    d = _sd(wv, W + ".sink.data")
     if d is None or key(d) != "sink.data":
         ob1.refute("writer-data", "writer data is %s" % (key(d) if d is not None else None), None)
-    if len(find_connect(rv, src="reader.source", dst="source")) != 1:
+    if len(find_connect(rv, src=R + ".source", dst="source")) != 1:
         ob1.refute("reader-out", "reader.source is not connected to the FIFO source", None)
-    # ---- C13.3 ----
+
+
+class TopRoles:
+    """pre/post FIFO, pre/post converter, DRAM FIFO and the bypass / store signals of LiteDRAMFIFO - by what they connect."""
+
+    def __init__(self, t, ob):
+        self.ok = False
+        cons = [l for l in t.leaves if l.kind == "connect" and l.inst == "" and l.fsm is None]
+        self.cons = cons
+        pair = {(key(l.value), key(l.target)): l for l in cons}
+
+        def inst_of(k):
+            return k.rsplit(".", 1)[0]
+        pre = [inst_of(d) for (s, d) in pair if s == "sink" and d.endswith(".sink")]
+        post = [inst_of(s) for (s, d) in pair if d == "source" and s.endswith(".source")]
+        if not ob.need(len(pre) == 1 and len(post) == 1, "pre-FIFO (fed by sink) / post-FIFO (feeding source) not identified"):
+            return
+        self.pre, self.post = pre[0], post[0]
+        inner = [o.path for o in t.d.instances.values() if o.cls == "_LiteDRAMFIFO" and "." not in o.path]
+        if not ob.need(len(inner) == 1, "inner DRAM FIFO not found"):
+            return
+        self.dram = inner[0]
+        prec = [inst_of(s) for (s, d) in pair if d == self.dram + ".sink"]
+        postc = [inst_of(d) for (s, d) in pair if s == self.dram + ".source"]
+        if not ob.need(len(prec) == 1 and len(postc) == 1, "pre / post converter (around the DRAM FIFO) not identified"):
+            return
+        self.prec, self.postc = prec[0], postc[0]
+        self.pair = pair
+        self.ok = True
+
+
+def run(ctx):
+    ob1 = ctx.ob("C13.1", "control: writable = level < depth and readable = level > 0 (combinational), level' = level + write - read, both pointers advance by "
+                          "one and wrap at depth, addresses are base + pointer; a word is counted as written exactly when the DMA writer accepts it (which needs "
+                          "writable) and as read exactly when the DMA reader accepts the address (which needs readable)", 8)
+    ob2 = ctx.ob("C13.2", "mode switch bookkeeping: the DRAM word counter is +1 on fire(pre-converter.source) and -1 on fire(post-converter.sink), updated "
+                          "unconditionally in the store state and cleared on entry; the store state is left only when the first word has gone and the "
+                          "counter is zero; the pre-FIFO -> pre-converter path is closed in the very cycle that decision is taken; the bypass state is "
+                          "entered only with both converter residue counters at zero", 6)
+    ob3 = ctx.ob("C13.3", "bypass: the pre-FIFO feeds the post-FIFO directly only under with_bypass & <bypass signal>, which is asserted only in the reset "
+                          "(bypass) state; otherwise data goes pre-FIFO -> pre-converter -> DRAM FIFO -> post-converter -> post-FIFO", 3)
+    ctrl_rules(ctx, ob1)
+    # ---- top level ----
     for bp in (True, False):
         t = elab(ctx, FF, "LiteDRAMFIFO", kwargs={"data_width": Const(32), "base": Const(0), "depth": Const(1024), "write_port": pobj("write_port"), "read_port": pobj("read_port"),
                                                  "with_bypass": Const(bp)},
                  overrides={"write_port.data_width": Const(128 if bp else 32), "read_port.data_width": Const(128 if bp else 32), "write_port.address_width": Const(24)}, hasattrs=NATIVE)
-        cons = [l for l in t.leaves if l.kind == "connect" and l.inst == ""]
-        route = {}
-        for l in cons:
-            route[(key(l.value), key(l.target))] = (sorted(t.guard_keys(l, False)), l.fsm is not None and l.state)
-        ob3.instance("with_bypass=%s routing" % bp, {"%s->%s" % k: v_ for k, v_ in route.items()})
-        direct = route.get(("pre_fifo.source", "post_fifo.sink"))
-        if bp:
-            if direct is None or direct[0] != ["dram_bypass"]:
-                ob3.refute("bypass-guard", "pre-FIFO -> post-FIFO is connected under %s, expected exactly dram_bypass" % (direct,), None)
-            f = t.fsms("")
-            if ob3.need(len(f) == 1, "mode FSM not found"):
-                st = sorted({l.state for l in t.fsm_leaves(f[0]) if l.kind == "assign" and key(l.target) == "dram_bypass" and not is0(l.value)})
-                other = [l for l in t.leaves if l.fsm is None and l.kind == "assign" and key(l.target) == "dram_bypass" and not is0(l.value)]
-                if other:
-                    st.append("<outside the FSM>")
-                ob3.instance("dram_bypass asserted in", st)
-                if st != [f[0].reset_state]:
-                    ob3.refute("bypass-state", "dram_bypass is asserted in %s, expected only in the reset (bypass) state %s" % (st, f[0].reset_state), None)
-            pc = route.get(("post_converter.source", "post_fifo.sink"))
-            if pc is None or "~dram_bypass" not in pc[0]:
-                ob3.refute("post-guard", "post-converter -> post-FIFO is connected under %s: both sources could drive the post-FIFO" % (pc,), None)
-        else:
+        T = TopRoles(t, ob3)
+        if not T.ok:
+            return
+        route = {k: (t.guard_lits(l, False), l) for k, l in T.pair.items()}
+        ob3.instance("with_bypass=%s routing" % bp, {"%s->%s" % k: sorted(litset(v_[0])) for k, v_ in route.items()})
+        direct = route.get((T.pre + ".source", T.post + ".sink"))
+        for pr in (("sink", T.pre + ".sink"), (T.prec + ".source", T.dram + ".sink"), (T.dram + ".source", T.postc + ".sink"), (T.post + ".source", "source")):
+            if pr not in route or route[pr][0]:
+                ob3.refute("route:%s->%s:%s" % (pr[0], pr[1], bp), "%s -> %s is not an unconditional connection (%s)" % (pr[0], pr[1], sorted(litset(route[pr][0])) if pr in route else None), None)
+        if not bp:
             if direct is not None:
                 ob3.refute("bypass-without-option", "pre-FIFO -> post-FIFO is connected although with_bypass is off", None)
-        for pair in (("sink", "pre_fifo.sink"), ("pre_converter.source", "dram_fifo.sink"), ("dram_fifo.source", "post_converter.sink"), ("post_fifo.source", "source")):
-            if pair not in route or route[pair][0]:
-                ob3.refute("route:%s->%s:%s" % (pair[0], pair[1], bp), "%s -> %s is not an unconditional connection (%s)" % (pair[0], pair[1], route.get(pair)), None)
-    ctx.assume("BYPASS/DRAM/PUMP/DRAIN mode switching and the converter residue counters are value-dependent and NOT decided - the larger part of the property; "
+            continue
+        if direct is None or len(direct[0]) != 1 or not isinstance(direct[0][0][0], (Obj, Sym)):
+            ob3.refute("bypass-guard", "pre-FIFO -> post-FIFO is connected under %s, expected exactly one bypass signal" % (sorted(litset(direct[0])) if direct else None,), None)
+            continue
+        B, bpol = direct[0][0]
+        Bk = key(B)
+        f = t.fsms("")
+        if not ob3.need(len(f) == 1, "mode FSM not found"):
+            continue
+        f = f[0]
+
+        def asserted_states(sigk, val=1):
+            st = sorted({l.state for l in t.fsm_leaves(f) if l.kind == "assign" and key(l.target) == sigk and (not is0(l.value) if val else is0(l.value))})
+            if [l for l in t.leaves if l.fsm is None and l.kind == "assign" and key(l.target) == sigk and not is0(l.value)]:
+                st.append("<outside the FSM>")
+            return st
+        st = asserted_states(Bk)
+        ob3.instance("bypass signal %s asserted in" % Bk, st)
+        if not bpol or st != [f.reset_state]:
+            ob3.refute("bypass-state", "the bypass signal %s is asserted in %s, expected only in the reset (bypass) state %s" % (Bk, st, f.reset_state), None)
+        pc = route.get((T.postc + ".source", T.post + ".sink"))
+        if pc is None or "~" + Bk not in litset(pc[0]):
+            ob3.refute("post-guard", "post-converter -> post-FIFO is connected under %s: both sources could drive the post-FIFO" % (sorted(litset(pc[0])) if pc else None,), None)
+        # ---- C13.2 ----
+        st_path = route.get((T.pre + ".source", T.prec + ".sink"))
+        if not ob2.need(st_path is not None, "pre-FIFO -> pre-converter connection not found"):
+            continue
+        sl = [x for x in st_path[0] if lkey(x) != "~" + Bk]
+        if not ob2.need(len(sl) == 1 and sl[0][1] and isinstance(sl[0][0], (Obj, Sym)), "store signal (guard of pre-FIFO -> pre-converter) not identified: %s" % sorted(litset(st_path[0]))):
+            continue
+        S = key(sl[0][0])
+        store_states = [s_ for s_ in asserted_states(S) if s_ != "<outside the FSM>"]
+        ob2.instance("store signal %s asserted in" % S, store_states)
+        if not ob2.need(len(store_states) == 1, "expected exactly one store (DRAM) state, found %s" % store_states):
+            continue
+        DS = store_states[0]
+        dls = t.fsm_leaves(f, DS)
+        fire_in = {T.prec + ".source.valid", T.prec + ".source.ready"}
+        fire_out = {T.postc + ".sink.valid", T.postc + ".sink.ready"}
+        # word counter: NextValue(cnt, cnt + inc - dec)
+        CNT = INC = DEC = None
+        cnt_leaf = None
+        for l in dls:
+            if l.kind == "nextvalue" and isinstance(l.target, (Obj, Sym)):
+                ll = lin(l.value)
+                if ll is None or any(len(m_) != 1 for m_ in ll.t):
+                    continue
+                co = {m_[0]: c_ for m_, c_ in ll.t.items()}
+                tk = key(l.target)
+                plus = [k_ for k_, c_ in co.items() if c_ == 1 and k_ != tk]
+                minus = [k_ for k_, c_ in co.items() if c_ == -1]
+                if co.get(tk) == 1 and len(plus) == 1 and len(minus) == 1 and len(co) == 3:
+                    CNT, INC, DEC, cnt_leaf = tk, plus[0], minus[0], l
+        if not ob2.need(CNT is not None, "DRAM word counter (x <= x + inc - dec in the store state) not found"):
+            continue
+        ob2.instance("word counter", {"counter": CNT, "inc": INC, "dec": DEC, "update": str(cnt_leaf)})
+        if cnt_leaf.guards:
+            ob2.refute("count-conditional", "the DRAM word counter %s is only updated under %s: words moved in other cycles are not counted" % (CNT, sorted(t.guard_keys(cnt_leaf, False))), cnt_leaf.loc)
+        for sig, want, what in ((INC, fire_in, "entered the DRAM path (fire of the pre-converter's source)"), (DEC, fire_out, "left it (fire of the post-converter's sink)")):
+            ds = [l for l in t.fsm_leaves(f) if l.kind == "assign" and key(l.target) == sig and not is0(l.value)] + \
+                 [l for l in t.leaves if l.fsm is None and l.kind == "assign" and key(l.target) == sig and not is0(l.value)]
+            conds = [cond_keys(t, l) for l in ds]
+            ob2.instance("strobe %s" % sig, [sorted(c_) for c_ in conds])
+            if len(ds) != 1 or conds[0] != want or (ds[0].fsm is not None and ds[0].state != DS):
+                ob2.refute("count-strobe:%s" % ("inc" if sig == INC else "dec"), "%s is asserted under %s, expected exactly when a DRAM word has %s" %
+                           (sig, [sorted(c_) for c_ in conds], what), ds[0].loc if ds else cnt_leaf.loc)
+        # entry into the store state: counter cleared, first-word flag set
+        entries = [l for l in t.fsm_leaves(f) if l.kind == "next" and isinstance(l.value, Const) and l.value.v == DS and l.state != DS]
+        FIRST = None
+        for e in entries:
+            g = t.guard_keys(e, False)
+            same = [l for l in t.fsm_leaves(f, e.state) if l.kind == "nextvalue" and t.guard_keys(l, False) <= g]
+            clr = [l for l in same if key(l.target) == CNT and is0(l.value)]
+            sets = [l for l in same if is1(l.value) and isinstance(l.target, (Obj, Sym))]
+            ob2.instance("entry %s -> %s" % (e.state, DS), {"guards": sorted(g), "clears_counter": bool(clr), "sets": [key(l.target) for l in sets]})
+            if e.state == f.reset_state:
+                if not clr:
+                    ob2.refute("entry-count", "the store state is entered from %s without clearing the word counter %s" % (e.state, CNT), e.loc)
+                if len(sets) == 1:
+                    FIRST = key(sets[0].target)
+        if not ob2.need(FIRST is not None, "first-word flag (set on entry into the store state) not identified"):
+            continue
+        fclr = [l for l in dls if l.kind == "nextvalue" and key(l.target) == FIRST and is0(l.value)]
+        if len(fclr) != 1 or nkeys(t, t.guard_lits(fclr[0], False)) != fire_in:
+            ob2.refute("first-clear", "the first-word flag %s is cleared under %s, expected exactly when the first DRAM word enters the DRAM path" %
+                       (FIRST, [sorted(t.guard_keys(l, False)) for l in fclr]), fclr[0].loc if fclr else cnt_leaf.loc)
+        # residue counters: +1 on fire(pre-converter.sink) / fire(post-converter.source)
+        res = {}
+        for l in dls:
+            if l.kind == "nextvalue" and lin_eq(l.value, Op("+", (l.target, Const(1)))):
+                g = nkeys(t, t.guard_lits(l, False))
+                if g == {T.prec + ".sink.valid", T.prec + ".sink.ready"}:
+                    res["in"] = key(l.target)
+                if g == {T.postc + ".source.valid", T.postc + ".source.ready"}:
+                    res["out"] = key(l.target)
+        ob2.instance("converter residue counters", res)
+        if not ob2.need(len(res) == 2, "residue counters of the two converters not identified (%s)" % res):
+            continue
+        # exits of the store state
+        exits = [l for l in dls if l.kind == "next" and isinstance(l.value, Const) and l.value.v != DS]
+        if not ob2.need(len(exits) >= 1, "the store state has no exit"):
+            continue
+        empty = {"~" + FIRST, "~" + CNT}
+        for e in exits:
+            g = nkeys(t, t.guard_lits(e, False))
+            closes = [l for l in dls if l.kind == "assign" and key(l.target) == S and is0(l.value) and nkeys(t, t.guard_lits(l, False)) <= g
+                      and all(l.order > m.order for m in dls if m.kind == "assign" and key(m.target) == S and not is0(m.value))]
+            ob2.instance("exit %s -> %s" % (DS, e.value.v), {"guards": sorted(g), "closes_store_path": bool(closes)})
+            if not empty <= g:
+                ob2.refute("exit-not-empty:%s" % e.value.v, "the store state is left for %s under %s, which does not require %s: words still in the DRAM path are "
+                           "overtaken by the bypass" % (e.value.v, sorted(g), sorted(empty - g)), e.loc)
+            if not closes:
+                ob2.refute("exit-keeps-store:%s" % e.value.v, "the store state is left for %s under %s but %s (pre-FIFO -> pre-converter) stays asserted in that cycle: a word "
+                           "at the pre-FIFO output in exactly that cycle enters the DRAM path while the FSM already switches away - it is stranded and later "
+                           "words overtake it" % (e.value.v, sorted(g), S), e.loc)
+        # every entry into the bypass state needs both residues at zero
+        for e in [l for l in t.fsm_leaves(f) if l.kind == "next" and isinstance(l.value, Const) and l.value.v == f.reset_state and l.state != f.reset_state]:
+            g = nkeys(t, t.guard_lits(e, False))
+            ob2.instance("entry %s -> %s" % (e.state, f.reset_state), sorted(g))
+            if not {"~" + res["in"], "~" + res["out"]} <= g:
+                ob2.refute("bypass-with-residue:%s" % e.state, "the bypass state is entered from %s under %s without both converter residue counters (%s, %s) being "
+                           "zero: a partial word is left inside a converter and later mixed into the stream" % (e.state, sorted(g), res["in"], res["out"]), e.loc)
+    ctx.assume("the residue-flush states (pump / drain) and the value-dependent part of the mode switching are NOT decided; "
                "a read is issued only after its write command was accepted by the port (C12.4 + level counting accepted writes), data order then rests on C01")
 
 
